@@ -1016,7 +1016,8 @@ void apply_logic_net(bool const *inp, {BITS_TO_DTYPE[32]} *out, size_t len) {{
         """Direct forward pass without GroupSum."""
         batch_size = x.shape[0]
         input_size = self._get_input_size()
-        x_flat = x.reshape(batch_size, input_size).astype(BITS_TO_NP_DTYPE[self.num_bits])
+        # C-ordered copy: the rows are handed to the library one by one and must be contiguous whatever the layout of x
+        x_flat = np.ascontiguousarray(x.reshape(batch_size, input_size), dtype=BITS_TO_NP_DTYPE[self.num_bits])
 
         output_size = self._get_output_size()
         out = np.zeros((batch_size, output_size), dtype=BITS_TO_NP_DTYPE[self.num_bits])
